@@ -456,7 +456,7 @@ OnInst(s, e) ==
          R("ir.operand_defined", \A v \in vals : v >= 0)
     \cup R("ir.operand_type_in_range", \A t \in RangeOf(e.types) : TyOK(s, t))
     \cup R("ir.branch_target_in_range", \A t \in RangeOf(e.targets) : t >= 0)
-    \cup R("ir.record_operand_count", ~e.short /\ e.extra_ops = 0 /\ ~e.trunc)
+    \cup R("ir.record_operand_count", ~e.short /\ e.extra_ops = 0)   \* (a relative id wider than 32 bits is truncated by LLVM's reader: accepted)
     \cup R("ir.forward_ref_type", ~e.fwd_type_conflict)
     \cup (IF e.op # "call" THEN {} ELSE
               R("ir.call_target_is_function", e.callee >= 0 /\ ParamsOf(s, e.callee) # -2)
